@@ -6,6 +6,7 @@ import (
 	"fmt"
 	"io"
 	"os"
+	"runtime/debug"
 	"sort"
 	"strings"
 	"sync"
@@ -224,27 +225,100 @@ func genShapes(t *rapid.T, label string) []shape {
 	return out
 }
 
-func genScript(t *rapid.T, label string) map[int]backends.Fault {
+// faultKey addresses the N-th call of one operation kind at one replica.
+// Numbering per operation kind (not per replica) keeps a case
+// deterministic: during FindMissing the two replication directions run in
+// parallel, so a replica sees Gets from one goroutine and
+// FindMissing/Puts from another, but calls of one kind arrive in order.
+type faultKey struct {
+	Op string
+	N  int
+}
+
+type faultScript map[faultKey]codes.Code
+
+func genScript(t *rapid.T, label string) faultScript {
 	n := rapid.IntRange(0, 3).Draw(t, label+"/nfaults")
-	out := map[int]backends.Fault{}
+	out := faultScript{}
 	for i := 0; i < n; i++ {
-		at := rapid.IntRange(0, 14).Draw(t, fmt.Sprintf("%s/at%d", label, i))
-		out[at] = backends.Fault{Code: rapid.SampledFrom(faultCodes).Draw(t, fmt.Sprintf("%s/code%d", label, i)), MidStreamAfter: -1}
+		op := rapid.SampledFrom([]string{"Get", "Get", "GetFromComposite", "Put", "FindMissing"}).Draw(t, fmt.Sprintf("%s/op%d", label, i))
+		at := rapid.IntRange(0, 6).Draw(t, fmt.Sprintf("%s/at%d", label, i))
+		out[faultKey{op, at}] = rapid.SampledFrom(faultCodes).Draw(t, fmt.Sprintf("%s/code%d", label, i))
 	}
 	return out
 }
 
-func scriptString(m map[int]backends.Fault) string {
-	ks := make([]int, 0, len(m))
-	for k := range m {
-		ks = append(ks, k)
+func scriptString(m faultScript) string {
+	ks := make([]string, 0, len(m))
+	for k, c := range m {
+		ks = append(ks, fmt.Sprintf("%s#%d:%s", k.Op, k.N, c))
 	}
-	sort.Ints(ks)
-	var sb strings.Builder
-	for _, k := range ks {
-		fmt.Fprintf(&sb, "%d:%s ", k, m[k].Code)
+	sort.Strings(ks)
+	return "{" + strings.Join(ks, " ") + "}"
+}
+
+// scripted fails the calls named by its script with the scripted code
+// (never NOT_FOUND) before they reach the replica, and remembers which
+// faults fired.
+type scripted struct {
+	blobstore.BlobAccess
+	name   string
+	script faultScript
+
+	mu     sync.Mutex
+	counts map[string]int
+	fired  []faultKey
+}
+
+func (f *scripted) next(op string) error {
+	f.mu.Lock()
+	defer f.mu.Unlock()
+	k := faultKey{op, f.counts[op]}
+	f.counts[op]++
+	if code, ok := f.script[k]; ok {
+		f.fired = append(f.fired, k)
+		return status.Error(code, "injected fault at "+f.name)
 	}
-	return "{" + strings.TrimSpace(sb.String()) + "}"
+	return nil
+}
+
+func (f *scripted) snapshot() (map[string]int, int) {
+	f.mu.Lock()
+	defer f.mu.Unlock()
+	c := map[string]int{}
+	for k, v := range f.counts {
+		c[k] = v
+	}
+	return c, len(f.fired)
+}
+
+func (f *scripted) Get(ctx context.Context, d digest.Digest) buffer.Buffer {
+	if err := f.next("Get"); err != nil {
+		return buffer.NewBufferFromError(err)
+	}
+	return f.BlobAccess.Get(ctx, d)
+}
+
+func (f *scripted) GetFromComposite(ctx context.Context, p, c digest.Digest, s slicing.BlobSlicer) buffer.Buffer {
+	if err := f.next("GetFromComposite"); err != nil {
+		return buffer.NewBufferFromError(err)
+	}
+	return f.BlobAccess.GetFromComposite(ctx, p, c, s)
+}
+
+func (f *scripted) Put(ctx context.Context, d digest.Digest, b buffer.Buffer) error {
+	if err := f.next("Put"); err != nil {
+		b.Discard()
+		return err
+	}
+	return f.BlobAccess.Put(ctx, d, b)
+}
+
+func (f *scripted) FindMissing(ctx context.Context, ds digest.Set) (digest.Set, error) {
+	if err := f.next("FindMissing"); err != nil {
+		return digest.EmptySet, err
+	}
+	return f.BlobAccess.FindMissing(ctx, ds)
 }
 
 type object struct {
@@ -333,6 +407,27 @@ func consume(b buffer.Buffer, method, chunk int) ([]byte, error) {
 
 var methodNames = []string{"ToByteSlice", "ToReader", "IntoWriter", "ToChunkReader"}
 
+// noPanic runs one operation of the code under test and turns a panic
+// in the calling goroutine into a reported violation (no draws happen
+// inside f, so rapid's own control-flow panics cannot be swallowed).
+func noPanic(t *rapid.T, what func() string, f func()) {
+	defer func() {
+		if r := recover(); r != nil {
+			var frames []string
+			for _, l := range strings.Split(string(debug.Stack()), "\n") {
+				if strings.Contains(l, "/pkg/") && strings.Contains(l, ".go:") && !strings.Contains(l, "/src/runtime/") {
+					frames = append(frames, strings.TrimSpace(l))
+				}
+			}
+			if len(frames) > 8 {
+				frames = frames[:8]
+			}
+			t.Fatalf("%s PANICKED: %v\n    at %s", what(), r, strings.Join(frames, "\n    at "))
+		}
+	}()
+	f()
+}
+
 // ---------------------------------------------------------------------
 // the replica pair and per-operation observation
 // ---------------------------------------------------------------------
@@ -341,26 +436,27 @@ type replica struct {
 	label  string // "A" / "B": name in the call log and in "Backend A"
 	mem    *backends.Mem
 	shaper *shaper
-	faulty *backends.Faulty
+	faulty *scripted
 	rec    *backends.Recorder
-	script map[int]backends.Fault
 }
 
-func newReplica(label string, kf digest.KeyFormat, shapes []shape, script map[int]backends.Fault, log *backends.Log) *replica {
-	r := &replica{label: label, script: script}
+func newReplica(label string, kf digest.KeyFormat, shapes []shape, script faultScript, log *backends.Log) *replica {
+	r := &replica{label: label}
 	lower := "r" + strings.ToLower(label) // must not contain "Backend A"
 	r.mem = backends.NewMem(lower, kf)
 	r.shaper = &shaper{Mem: r.mem, name: lower, shapes: shapes}
-	r.faulty = backends.NewFaulty(lower, r.shaper, script)
+	r.faulty = &scripted{BlobAccess: r.shaper, name: lower, script: script, counts: map[string]int{}}
 	r.rec = backends.NewRecorder(label, r.faulty, log)
 	return r
 }
 
 // mark is the state of the observation counters at the start of an op.
 type mark struct {
-	logLen               int
-	calls, fired         [2]int // per replica: Faulty call number, len(Fired)
-	gets, mid    [2]int // per replica: shaper Get number, len(midFired)
+	logLen int
+	counts [2]map[string]int // per replica: calls so far per operation kind
+	fired  [2]int            // per replica: len(fired)
+	gets   [2]int            // per replica: shaper Get number
+	mid    [2]int            // per replica: len(midFired)
 }
 
 // observed is what happened at the replicas during one op.
@@ -378,23 +474,11 @@ type pair struct {
 	log *backends.Log
 }
 
-func countCalls(calls []backends.Call, label string) int {
-	n := 0
-	for _, c := range calls {
-		if c.Backend == label && c.Op != "GetCapabilities" {
-			n++
-		}
-	}
-	return n
-}
-
 func (p *pair) mark() mark {
 	var m mark
-	snap := p.log.Snapshot()
-	m.logLen = len(snap)
+	m.logLen = len(p.log.Snapshot())
 	for i, r := range p.r {
-		m.calls[i] = countCalls(snap, r.label)
-		m.fired[i] = r.faulty.FiredCount()
+		m.counts[i], m.fired[i] = r.faulty.snapshot()
 		m.gets[i], m.mid[i] = r.shaper.counts()
 	}
 	return m
@@ -408,14 +492,25 @@ func (p *pair) observe(m mark, midFirst bool) observed {
 	snap := p.log.Snapshot()
 	o.calls = snap[m.logLen:]
 	for i, r := range p.r {
-		o.contacted[i] = countCalls(o.calls, r.label) > 0
-		for _, callNo := range r.faulty.Fired[m.fired[i]:] {
+		// the replica's first call in this op (always issued before any
+		// concurrency starts at that replica)
+		firstOp := ""
+		for _, c := range o.calls {
+			if c.Backend == r.label && c.Op != "GetCapabilities" {
+				firstOp = c.Op
+				break
+			}
+		}
+		o.contacted[i] = firstOp != ""
+		r.faulty.mu.Lock()
+		for _, k := range r.faulty.fired[m.fired[i]:] {
 			o.anyFault[i] = true
-			o.codes[r.script[callNo].Code] = true
-			if callNo == m.calls[i] {
+			o.codes[r.faulty.script[k]] = true
+			if k.Op == firstOp && k.N == m.counts[i][firstOp] {
 				o.firstFault[i] = true
 			}
 		}
+		r.faulty.mu.Unlock()
 		r.shaper.mu.Lock()
 		for _, getNo := range r.shaper.midFired[m.mid[i]:] {
 			o.anyFault[i] = true
@@ -454,9 +549,18 @@ var recMirrored = vstats.New("TestC11Mirrored")
 
 // TestC11Mirrored drives NewMirroredBlobAccess, wired like
 // configuration/new_blob_access.go does, over two model replicas.
-func TestC11Mirrored(t *testing.T) {
+func TestC11Mirrored(t *testing.T) { mirroredProperty(t, recMirrored) }
+
+var recMirroredRace = vstats.New("TestC11MirroredRace")
+
+// TestC11MirroredRace is the same property; the driver runs it from a -race
+// binary (thorough tier): Put, FindMissing and read repair run replica
+// calls and buffer clones in parallel goroutines.
+func TestC11MirroredRace(t *testing.T) { mirroredProperty(t, recMirroredRace) }
+
+func mirroredProperty(t *testing.T, rec *vstats.Recorder) {
 	rapid.Check(t, func(t *rapid.T) {
-		c := recMirrored.Begin()
+		c := rec.Begin()
 		kf := digest.KeyWithoutInstance
 		if rapid.Bool().Draw(t, "keyWithInstance") {
 			kf = digest.KeyWithInstance
@@ -563,17 +667,27 @@ func TestC11Mirrored(t *testing.T) {
 				chunk := rapid.IntRange(1, 9).Draw(t, "readchunk")
 				want := obj.data
 				c.Add(kind, j, method, chunk)
-				var b buffer.Buffer
-				if kind == "Get" {
-					b = ba.Get(ctx, obj.d)
-				} else {
-					off := rapid.IntRange(0, len(obj.data)).Draw(t, "sliceoff")
-					ln := rapid.IntRange(0, len(obj.data)-off).Draw(t, "slicelen")
+				off, ln := 0, len(obj.data)
+				if kind == "GetFromComposite" {
+					off = rapid.IntRange(0, len(obj.data)).Draw(t, "sliceoff")
+					ln = rapid.IntRange(0, len(obj.data)-off).Draw(t, "slicelen")
 					c.Add(off, ln)
 					want = obj.data[off : off+ln]
-					b = ba.GetFromComposite(ctx, obj.d, hx.Sha(obj.inst, want), rangeSlicer{off, ln})
 				}
-				got, err := consume(b, method, chunk)
+				var got []byte
+				var err error
+				noPanic(t, func() string {
+					return fmt.Sprintf("%s(object %d of %d bytes, %s) with A->B %s, B->A %s, object held by A=%v B=%v, buffer kinds returned by A %v by B %v",
+						kind, j, len(obj.data), methodNames[method], cfgAB, cfgBA, before[j][0], before[j][1], shapesA, shapesB)
+				}, func() {
+					var b buffer.Buffer
+					if kind == "Get" {
+						b = ba.Get(ctx, obj.d)
+					} else {
+						b = ba.GetFromComposite(ctx, obj.d, hx.Sha(obj.inst, want), rangeSlicer{off, ln})
+					}
+					got, err = consume(b, method, chunk)
+				})
 				o := p.observe(m, true)
 				what := fmt.Sprintf("%s(object %d, %s) placement before A=%v B=%v -> %d bytes, %v; %s; A->B %s, B->A %s",
 					kind, j, methodNames[method], before[j][0], before[j][1], len(got), err, o, cfgAB, cfgBA)
@@ -699,7 +813,10 @@ func TestC11Mirrored(t *testing.T) {
 				} else {
 					b = buffer.NewCASBufferFromByteSlice(obj.d, data, buffer.UserProvided)
 				}
-				err := ba.Put(ctx, obj.d, b)
+				var err error
+				noPanic(t, func() string { return fmt.Sprintf("Put(object %d, wrong=%v)", j, wrong) }, func() {
+					err = ba.Put(ctx, obj.d, b)
+				})
 				o := p.observe(m, false)
 				what := fmt.Sprintf("Put(object %d, wrong=%v) -> %v; %s", j, wrong, err, o)
 				if err == nil {
@@ -746,7 +863,11 @@ func TestC11Mirrored(t *testing.T) {
 					}
 				}
 				c.Add(kind, fmt.Sprint(members))
-				missing, err := ba.FindMissing(ctx, sb.Build())
+				var missing digest.Set
+				var err error
+				noPanic(t, func() string { return fmt.Sprintf("FindMissing(%v) with A->B %s, B->A %s", members, cfgAB, cfgBA) }, func() {
+					missing, err = ba.FindMissing(ctx, sb.Build())
+				})
 				o := p.observe(m, false)
 				what := fmt.Sprintf("FindMissing(%v) -> %v, %v; %s; A->B %s, B->A %s", members, missing.Items(), err, o, cfgAB, cfgBA)
 				oneSided := 0
